@@ -24,6 +24,7 @@ def handle (j : Json) : R Json := do
       | none => Json.null
       | some st => Json.str (String.ofList st)
     pure (Json.mkObj [("bad", jNats bad), ("balanced", Json.bool (balanced text)), ("scan", scan),
+      ("plus0", Json.bool (atDepth0 '+' text [])),
       ("parse", Einx.Driver.Notation.resJson (parseOp text))])
   | "elab_rules" =>
     let famS ← strF j "family"
